@@ -20,7 +20,7 @@ RULE = ("complete product per mnemonic class: every one of the 252 mnemonics x e
         "like registers/accumulators (ac1sav, r10, spx, ...) x 22 operand places of every operand-stub class x defined before/after x 2 "
         "bases; operand values written as flat compound expressions 'a op1 b op2 c' for all 144 operator pairs x 3 prefixes x 9 operand "
         "places (index, deferred index, immediate, absolute, relative, FP) x symbols before/after, value by the reference expression "
-        "reader; statements inside '.repeat'. Non-trivial = distinct "
+        "reader; statements inside '.repeat'; '@(rN)' (index deferred with an implicit index word 0) in 10 operand places x 7 registers x 2-3 register spellings x bases. Non-trivial = distinct "
         "(base, statement, expected decode) triple")
 ASSUMPTIONS = ["reference instruction table and decoder pdpmc/ref/isa.py (DESIGN.md Appendix A, handbook vectors in selftest)",
                "registers are spelled rN and accumulators acN here; other spellings are C10's subject"]
@@ -254,6 +254,7 @@ def cases(tier):
         yield {"k": "lookalike", "i": i}
     for op1 in expr.INFIX:
         yield {"k": "operand-expr", "op1": op1}
+    yield {"k": "implicit-index"}
     # negative trap numbers (accepted today as value mod 256): if accepted, the field must be v mod 256
     yield {"k": "negnum"}
 
@@ -349,6 +350,23 @@ def check(case, r, tier):
         return
     if k == "stmt":
         run_one(case["mn"], case["base"], case["text"], case["spec"], r)
+        return
+    if k == "implicit-index":
+        # '@(rN)' is index deferred with an index word of 0 (not register deferred, which is '(rN)' / '@rN'); '(rN)' next to it
+        for base in BASES:
+            for reg in range(7):
+                for rn in ("r%d" % reg, "%%%d" % reg) + (("sp",) if reg == 6 else ()):
+                    d7 = ["gen", 7, reg, "val", 0]
+                    run_one("clr", base, "clr @(%s)" % rn, ["D", 0o5000, [d7]], r)
+                    run_one("mov", base, "mov @(%s), r0" % rn, ["SD", 0o10000, [d7, ["gen", 0, 0, None, None]]], r)
+                    run_one("mov", base, "mov r0, @(%s)" % rn, ["SD", 0o10000, [["gen", 0, 0, None, None], d7]], r)
+                    run_one("cmp", base, "cmp @(%s), @(r2)" % rn, ["SD", 0o20000, [d7, ["gen", 7, 2, "val", 0]]], r)
+                    run_one("add", base, "add @(%s), fw" % rn, ["SD", 0o60000, [d7, ["gen", 6, 7, "rel", "fw"]]], r)
+                    run_one("add", base, "add bk, @(%s)" % rn, ["SD", 0o60000, [["gen", 6, 7, "rel", "bk"], d7]], r)
+                    run_one("jsr", base, "jsr pc, @(%s)" % rn, ["RD", 0o4000, [["reg", 7], d7]], r)
+                    run_one("ldf", base, "ldf @(%s), ac1" % rn, ["FSA", 0o172400, [d7, ["ac", 1]]], r)
+                    run_one("mov", base, "mov (%s), @(%s)" % (rn, rn), ["SD", 0o10000, [["gen", 1, reg, None, None], d7]], r)
+                    run_one("mov", base, "mov @%s, @(%s)" % (rn, rn), ["SD", 0o10000, [["gen", 1, reg, None, None], d7]], r)
         return
     if k == "in-repeat":
         # one statement token compiled three times at successive addresses: PC-relative operands and branches must be
